@@ -146,7 +146,10 @@ GCanon(g) == [g EXCEPT !.s = Canon(g.s)]
 (* invoked; that is all the real-time order the property needs.              *)
 
 P02Init == [wr |-> {}, gets |-> {}, seen |-> {}]
-\* wr: [id, k, v (None for invalidate), done, pred, ia, tlo, thi]; gets: [id, k, pred] in flight;
+\* wr: [id, k, v (None for invalidate), done, obs, pred, ia, tlo, thi]; gets: [id, k, pred] in flight;
+\* obs: a get has returned the value of this insert, so the insert has taken effect although it may
+\* not have returned yet: from then on it precedes every operation invoked later, exactly as if it
+\* had returned at that moment (its clock reading is at most the reading at that get's return).
 \* seen: <<reader, writer, key, index>> the latest index of writer's values reader has observed.
 \* invalidate_all is a write to every key (ia); tlo / thi are the clock readings at the
 \* invocation and at the return of a write: an invalidate_all supersedes an insert only if the
@@ -161,20 +164,24 @@ IndexOf(v) == v % 100
 P02Update(ps, e) ==
     CASE e.ev = "Inv" /\ IsWrite(e) ->
            [ps EXCEPT !.wr = @ \cup {[id |-> e.id, k |-> e.k, v |-> IF e.op = "Insert" THEN e.v ELSE None,
-                                      done |-> FALSE, ia |-> (e.op = "InvalidateAll"),
+                                      done |-> FALSE, obs |-> FALSE, ia |-> (e.op = "InvalidateAll"),
                                       tlo |-> ClockOf(e), thi |-> ClockOf(e),
                                       pred |-> {w.id : w \in {x \in ps.wr :
-                                                  (e.op = "InvalidateAll" \/ OnKey(x, e.k)) /\ x.done}}]}]
+                                                  (e.op = "InvalidateAll" \/ OnKey(x, e.k)) /\ (x.done \/ x.obs)}}]}]
       [] e.ev = "Inv" /\ e.op = "Get" ->
            [ps EXCEPT !.gets = @ \cup {[id |-> e.id, k |-> e.k,
-                                        pred |-> {w.id : w \in {x \in ps.wr : OnKey(x, e.k) /\ x.done}}]}]
+                                        pred |-> {w.id : w \in {x \in ps.wr : OnKey(x, e.k) /\ (x.done \/ x.obs)}}]}]
       [] e.ev = "Ret" /\ \E w \in ps.wr : w.id = e.id ->
-           [ps EXCEPT !.wr = {IF w.id = e.id THEN [w EXCEPT !.done = TRUE, !.thi = Max(@, ClockOf(e))] ELSE w
+           [ps EXCEPT !.wr = {IF w.id = e.id
+                              THEN [w EXCEPT !.done = TRUE, !.thi = IF w.obs THEN @ ELSE Max(@, ClockOf(e))] ELSE w
                               : w \in ps.wr}]
       [] e.ev = "Ret" /\ \E q \in ps.gets : q.id = e.id ->
            LET q == CHOOSE x \in ps.gets : x.id = e.id
                others == {x \in ps.seen : ~(x[1] = e.t /\ x[2] = WriterOf(e.r) /\ x[3] = q.k)}
            IN [ps EXCEPT !.gets = @ \ {q},
+                         !.wr = IF e.r = None THEN @
+                                ELSE {IF w.k = q.k /\ w.v = e.r /\ ~w.done /\ ~w.obs
+                                      THEN [w EXCEPT !.obs = TRUE, !.thi = Max(@, ClockOf(e))] ELSE w : w \in ps.wr},
                          !.seen = IF e.r = None THEN @
                                   ELSE others \cup {<<e.t, WriterOf(e.r), q.k, IndexOf(e.r)>>}]
       [] OTHER -> ps
